@@ -93,3 +93,29 @@ def cmp3(x, y):
 def order_type(entries, edges):
     """order type of every entry boundary against every edge"""
     return tuple(tuple(cmp3(v, g) for v in e[:-1] for g in edges) for e in entries)
+
+
+# ------------------------------------------------------------------ scratch files
+import atexit as _atexit
+import os as _os
+import shutil as _shutil
+import tempfile as _tempfile
+
+_BASE = _tempfile.mkdtemp(prefix="praatio-verif-", dir="/dev/shm" if _os.path.isdir("/dev/shm") else None)
+_PARENT = _os.getpid()
+
+
+def _cleanup():
+    if _os.getpid() == _PARENT:
+        _shutil.rmtree(_BASE, ignore_errors=True)
+
+
+_atexit.register(_cleanup)
+
+
+def scratch_dir():
+    """A private directory for this process (workers are forked after import, so they share _BASE and the
+    parent removes it at exit)."""
+    d = _os.path.join(_BASE, str(_os.getpid()))
+    _os.makedirs(d, exist_ok=True)
+    return d
